@@ -1358,6 +1358,128 @@ var c19ExtPool = []uint16{0, 5, 10, 11, 13, 15, 16, 18, 21, 23, 35, 43, 45, 51, 
 var c19CipherPool = []uint16{0x1301, 0x1303, 0x1302, 0xc02b, 0xc02f, 0xcca9, 0xcca8, 0xc02c, 0xc030, 0xc00a, 0xc009, 0xc013, 0xc014,
 	0x33, 0x39, 0x2f, 0x35, 0xa, 0xff, 0x4, 0x5, 0xc024, 0xc023, 0xc028, 0xc027, 0x3d, 0x3c, 0x9d, 0x9c, 0x0a0a, 0x1a1a, 0xfafa, 0xc008}
 
+// ---- systematic "short nested field at the very end" stream -------------------------------
+// c19SplitHello cuts a well-formed hello message into the bytes before the extension block's
+// length field and the raw extensions (type, body).
+type c19RawExt struct {
+	typ  int
+	body []byte
+}
+
+func c19SplitHello(b []byte) (prefix []byte, exts []c19RawExt, ok bool) {
+	if len(b) < 42 {
+		return nil, nil, false
+	}
+	p := 39 + int(b[38])
+	if p+2 > len(b) {
+		return nil, nil, false
+	}
+	p += 2 + (int(b[p])<<8 | int(b[p+1]))
+	if p+1 > len(b) {
+		return nil, nil, false
+	}
+	p += 1 + int(b[p])
+	if p+2 > len(b) {
+		return nil, nil, false
+	}
+	prefix = append([]byte(nil), b[:p]...)
+	d := b[p+2:]
+	for len(d) >= 4 {
+		l := int(d[2])<<8 | int(d[3])
+		if 4+l > len(d) {
+			break
+		}
+		exts = append(exts, c19RawExt{int(d[0])<<8 | int(d[1]), append([]byte(nil), d[4:4+l]...)})
+		d = d[4+l:]
+	}
+	return prefix, exts, true
+}
+
+// c19JoinHello rebuilds the message: the last extension is written with the DECLARED length
+// [declared] whatever its body length is; the extension-block length and the handshake
+// length are fixed up so that the parser reaches the last extension.
+func c19JoinHello(prefix []byte, exts []c19RawExt, last c19RawExt, declared int) []byte {
+	var blk []byte
+	for _, e := range exts {
+		blk = append(blk, c19be16(e.typ)...)
+		blk = append(blk, c19be16(len(e.body))...)
+		blk = append(blk, e.body...)
+	}
+	blk = append(blk, c19be16(last.typ)...)
+	blk = append(blk, c19be16(declared)...)
+	blk = append(blk, last.body...)
+	out := append([]byte(nil), prefix...)
+	out = append(out, c19be16(len(blk))...)
+	out = append(out, blk...)
+	n := len(out) - 4
+	out[1], out[2], out[3] = byte(n>>16), byte(n>>8), byte(n)
+	return out
+}
+
+// bodies (declared length, bytes present) for an extension placed last: declared lengths
+// 0..3 and a few more, inner list lengths consistent / zero / odd / larger than the outer one,
+// fewer or more bytes present than declared
+type c19LastBody struct {
+	declared int
+	body     string // hex
+}
+
+func c19LastBodies(typ int) []c19LastBody {
+	var out []c19LastBody
+	add := func(d int, hexs ...string) {
+		for _, h := range hexs {
+			out = append(out, c19LastBody{d, h})
+		}
+	}
+	switch typ {
+	case 10: // supported_groups: uint16 list length, uint16 ids
+		add(0, "", "00", "000000")
+		add(1, "00", "ff", "", "0000")
+		add(2, "0000", "0001", "0002", "ffff", "00", "000200")
+		add(3, "000100", "000000", "000200", "0001")
+		add(4, "0002001d", "0004001d", "0001001d", "0000001d", "0003001d", "0002001d00")
+		add(5, "0003001d00", "0002001d00", "0004001d00")
+		add(6, "0004001d0017", "0006001d0017", "0002001d0017", "0004001d00")
+		add(7, "0004001d0017")
+	case 11: // ec_point_formats: uint8 list length, bytes
+		add(0, "", "00", "000000")
+		add(1, "00", "01", "ff", "", "0000")
+		add(2, "0100", "0000", "0200", "ff00", "01")
+		add(3, "020001", "030001", "010001", "000001", "0200")
+		add(4, "02000100")
+	default:
+		add(0, "", "00", "000000")
+		add(1, "00", "ff", "")
+		add(2, "0000", "0002", "00")
+		add(3, "000100", "0000")
+	}
+	return out
+}
+
+// messages that END inside or right after the session id / cipher suites / compression
+// methods / extension-block length, with those fields at their minimal values
+func c19TailVariants(fixed38 []byte) [][]byte {
+	var out [][]byte
+	tails := []string{"", "00", "0000", "0001", "0002", "000200", "0002c02b", "0003c02bc0", "0004c02b", "0002c02b00", "0002c02b01",
+		"0002c02b0100", "0002c02b010000", "0002c02b01000000", "0002c02b0100000000", "0002c02b01000001", "0002c02b0000", "0002c02b000000",
+		"0002c02b00000000", "000000", "00000000", "0000000000", "000001", "00000100", "0000ff", "ffff", "0002c02bff", "0002c02b0200",
+		"0002c02b00000400", "0002c02b0000040000", "0002c02b000004000a", "0002c02b000004000a00", "0002c02b000004000a0000", "0002c02b000004000b0000",
+		"0002c02b000005000a0000", "0002c02b000003000a00", "0002c02b000005000a000100", "0002c02b000005000b000100", "0002c02b000006000a00020000"}
+	for _, s := range []int{0, 1, 2, 3, 4, 32, 33} {
+		base := append([]byte(nil), fixed38...)
+		base = append(base, byte(s))
+		base = append(base, bytes.Repeat([]byte{0xab}, s)...)
+		for _, tl := range tails {
+			out = append(out, append(append([]byte(nil), base...), c19Hex(tl)...))
+		}
+		// the session id itself cut short
+		if s > 0 {
+			out = append(out, base[:len(base)-1])
+		}
+	}
+	return out
+}
+
 // a random well-formed hello
 func c19GenHello(r *Rand) *c19Hello {
 	h := &c19Hello{Version: []uint16{0x0301, 0x0303, 0x0304, 0, 0xffff}[r.Intn(5)], Random: c19H(c19RandBytes(r, 32))}
@@ -1735,7 +1857,53 @@ func c19Gen(r *Rand, tier string) []interface{} {
 			add(&c19In{Kind: "parse", Data: c19H(b[:n])})
 		}
 	}
-	for i := 0; i < 500*mult; i++ {
+	// --- systematic: every seed x every extension type the parser looks into (10, 11) and a few it
+	// skips, rebuilt so that this extension is the LAST one, with declared lengths 0..7, inner
+	// list lengths zero/odd/too large, fewer/more bytes present than declared; outer lengths fixed up
+	{
+		types := []int{10, 11, 0, 13, 16, 43, 5, 35, 0xff01}
+		for si := range c19Seeds {
+			prefix, exts, ok := c19SplitHello(c19Hex(c19Seeds[si].hex))
+			if !ok {
+				continue
+			}
+			for ti, typ := range types {
+				if ti >= 2 && tier != "thorough" && si%4 != 0 {
+					continue // extension types without a case in the switch: fewer seeds in the quick tier
+				}
+				var others []c19RawExt
+				for _, e := range exts {
+					if e.typ != typ {
+						others = append(others, e)
+					}
+				}
+				for bi, lb := range c19LastBodies(typ) {
+					keep := others
+					if bi%5 == 4 {
+						keep = exts // keep an earlier extension of the same type as well
+					}
+					if bi%7 == 6 {
+						keep = nil // the only extension
+					}
+					msg := c19JoinHello(prefix, keep, c19RawExt{typ, c19Hex(lb.body)}, lb.declared)
+					add(&c19In{Kind: "parse", Data: c19H(msg)})
+					if ti < 2 && lb.declared <= 1 && si%3 == 0 { // the same hello through clientHelloConn
+						wire := append([]byte{22, 3, 1, byte(len(msg) >> 8), byte(len(msg))}, msg...)
+						add(&c19In{Kind: "conn", Data: c19H(wire), Sizes: []int{len(wire)}})
+					}
+				}
+			}
+		}
+		for _, si := range []int{0, 2, 5} {
+			for _, b := range c19TailVariants(c19Hex(c19Seeds[si].hex)[:38]) {
+				add(&c19In{Kind: "parse", Data: c19H(b)})
+			}
+			if tier != "thorough" {
+				break
+			}
+		}
+	}
+	for i := 0; i < 400*mult; i++ {
 		var base []byte
 		if r.Chance(50) {
 			base = c19Hex(c19Seeds[r.Intn(len(c19Seeds))].hex)
@@ -1744,7 +1912,7 @@ func c19Gen(r *Rand, tier string) []interface{} {
 		}
 		add(&c19In{Kind: "parse", Data: c19H(c19Mutate(r, base))})
 	}
-	for i := 0; i < 700*mult; i++ {
+	for i := 0; i < 550*mult; i++ {
 		h := c19GenHello(r)
 		if r.Chance(40) { // make sure curves/points extensions are present and last
 			h.Exts = append(h.Exts, c19Ext{K: []string{"curves", "points", "other"}[r.Intn(3)], Type: 13, Curves: []uint16{29, 23, 24}, Body: "0001"})
@@ -1942,8 +2110,11 @@ func c19Gen(r *Rand, tier string) []interface{} {
 		}
 		add(in)
 	}
-	if true { // the largest record a backend can send
-		add(&c19In{Kind: "recs", Tail: 0, Buf: 4096, Recs: []c19Rec{{Type: 6, Content: c19H(bytes.Repeat([]byte{0x61}, 65535)), Pad: 255}}})
+	// the largest records a backend can send: content+padding around 2^16 (uint16 arithmetic on
+	// the two header fields would wrap here)
+	for _, cp := range [][2]int{{65535, 255}, {65535, 1}, {65281, 255}, {65280, 255}, {65535, 0}} {
+		add(&c19In{Kind: "recs", Tail: cp[1] % 2, Buf: 4096, Recs: []c19Rec{{Type: 6, Content: c19H(bytes.Repeat([]byte{0x61}, cp[0])), Pad: cp[1]},
+			{Type: 6, Content: "7a", Pad: 7}}})
 	}
 	// --- header name/value sizes around writePairs' truncation
 	pairs := [][2]int{{20, 10}, {20, 65472}, {20, 65473}, {20, 65471}, {20, 70000}, {65000, 0}, {65000, 492}, {65000, 493}, {65000, 491},
